@@ -17,6 +17,77 @@ pub fn ser_schema(s: &Schema, libver: u32) -> Vec<u8> {
     buf
 }
 
+/// The original schema format (library format version 0), which the current library can read but not write:
+/// no sizes, alignments, offsets, discriminant width or collection layouts.  `None` for nodes that did not
+/// exist then (traits, closures, references, ...).
+pub fn ser_schema_v0(s: &Schema) -> Option<Vec<u8>> {
+    fn wstr(out: &mut Vec<u8>, s: &str) {
+        out.extend_from_slice(&(s.len() as u64).to_le_bytes());
+        out.extend_from_slice(s.as_bytes());
+    }
+    fn fields(out: &mut Vec<u8>, fs: &[Field]) -> Option<()> {
+        for f in fs {
+            wstr(out, &f.name);
+            go(out, &f.value)?;
+        }
+        Some(())
+    }
+    fn go(out: &mut Vec<u8>, s: &Schema) -> Option<()> {
+        match s {
+            Schema::Struct(st) => {
+                out.push(1);
+                wstr(out, &st.dbg_name);
+                out.extend_from_slice(&(st.fields.len() as u64).to_le_bytes());
+                fields(out, &st.fields)?;
+            }
+            Schema::Enum(en) => {
+                if en.discriminant_size != 1 {
+                    return None; // the old format knew one byte discriminants only
+                }
+                out.push(2);
+                wstr(out, &en.dbg_name);
+                out.extend_from_slice(&(en.variants.len() as u64).to_le_bytes());
+                for v in &en.variants {
+                    wstr(out, &v.name);
+                    out.push(v.discriminant);
+                    out.extend_from_slice(&(v.fields.len() as u64).to_le_bytes());
+                    fields(out, &v.fields)?;
+                }
+            }
+            Schema::Primitive(p) => {
+                out.push(3);
+                // the primitive's own tag: take it from the current encoding (a string's layout byte is dropped)
+                let cur = ser_schema(&Schema::Primitive(*p), 2);
+                out.push(cur[1]);
+            }
+            Schema::Vector(t, _) => {
+                out.push(4);
+                go(out, t)?;
+            }
+            Schema::Undefined => out.push(5),
+            Schema::ZeroSize => out.push(6),
+            Schema::SchemaOption(t) => {
+                out.push(7);
+                go(out, t)?;
+            }
+            Schema::Array(a) => {
+                out.push(8);
+                out.extend_from_slice(&(a.count as u64).to_le_bytes());
+                go(out, &a.item_type)?;
+            }
+            Schema::Custom(c) => {
+                out.push(9);
+                wstr(out, c);
+            }
+            _ => return None,
+        }
+        Some(())
+    }
+    let mut out = Vec::new();
+    go(&mut out, s)?;
+    Some(out)
+}
+
 pub fn de_schema(bytes: &[u8], libver: u16) -> Result<(Schema, usize), String> {
     let r = catch_unwind(AssertUnwindSafe(|| {
         let mut cur = std::io::Cursor::new(bytes);
@@ -238,6 +309,13 @@ fn mutate_in_place(r: &mut Rng, s: &mut Schema, depth: u32) -> Option<&'static s
             if r.chance(1, 4) {
                 *s = Schema::SchemaOption(Box::new(s.clone()));
                 Some("option-wrapping")
+            } else if matches!(*p, SchemaPrimitive::schema_u32) && r.chance(1, 3) {
+                // two different primitives that print alike
+                *p = SchemaPrimitive::schema_canary1;
+                Some("primitive-kind")
+            } else if matches!(*p, SchemaPrimitive::schema_canary1) {
+                *p = SchemaPrimitive::schema_u32;
+                Some("primitive-kind")
             } else {
                 *p = other_prim(r, *p);
                 Some("primitive-kind")
